@@ -67,16 +67,15 @@ package sm2
 
 //@ func rawDecrypt property C13,C07
 //@   coverreturns
-//@   requires priv != nil && len(c2) <= 4000000000
+//@   requires priv != nil && priv.Curve != nil && x1 != nil && y1 != nil && ONCURVE(id(priv.Curve), objof(x1), objof(y1)) && len(c2) <= 4000000000
 //@   assert before call ConstantTimeAllZero#1: sameslice(arg0, msg)
 //@   heapnonnil
 //@   modifies everything
 
 //@ func bytesToPoint property C13
 //@   requires curve != nil
-//@   ensures err == nil ==> 1 <= result2 && result2 <= len(bytes) && result0 != nil && result1 != nil
-//@   heapnonnil
-//@   modifies everything
+//@   ensures err == nil ==> 1 <= result2 && result2 <= len(bytes) && result0 != nil && result1 != nil && ONCURVE(id(curve), objof(result0), objof(result1))
+//@   modifies nothing
 
 //@ func decryptASN1 property C13,C07
 //@   requires priv != nil && len(ciphertext) <= 4000000000
